@@ -300,6 +300,38 @@ impl Check for C13 {
                         }
                     }
                 }
+                // Lost update through a stale listing: if both clients were acknowledged a commit
+                // of DIFFERENT bytes at the same path, the later committer must have listed the
+                // hub after the earlier commit (hub-sync lists once, at the start). Decided on the
+                // trace: each spawned serve's listing walk vs. its rename into the path.
+                for (p, x) in &sc.clients[*c0 as usize].0 {
+                    let Some((_, y)) = sc.clients[*c1 as usize].0.iter().find(|(q, _)| q == p) else { continue };
+                    if x == y || r0.conflict_paths.contains(p) || r1.conflict_paths.contains(p) {
+                        continue;
+                    }
+                    if !(matches!(r0.exit, ExitKind::Code(0)) && matches!(r1.exit, ExitKind::Code(0))) {
+                        continue;
+                    }
+                    let full = format!("{ROOT}/{p}");
+                    // per serve process: (first readdir of ROOT = its listing, rename into `full`)
+                    let mut ev: Vec<(Pid, u64, u64)> = Vec::new();
+                    for pr in out.procs.iter().filter(|q| q.argv.iter().any(|a| a == "serve") && q.host == HUB) {
+                        let list = out.trace.iter().find(|r| r.pid == pr.pid && r.kind == OpKind::Readdir && r.path == ROOT).map(|r| r.seq);
+                        let ren = out.trace.iter().find(|r| r.pid == pr.pid && r.kind == OpKind::Rename && r.ok && r.path2 == full).map(|r| r.seq);
+                        if let (Some(l), Some(rn)) = (list, ren) {
+                            ev.push((pr.pid, l, rn));
+                        }
+                    }
+                    if ev.len() == 2 {
+                        let (first, second) = if ev[0].2 < ev[1].2 { (ev[0], ev[1]) } else { (ev[1], ev[0]) };
+                        if second.1 < first.2 {
+                            rep.fail("c13.no_lost_commit", "both-clients-committed-on-the-same-stale-listing",
+                                format!("round {ri}: {p:?}: both clients were acknowledged a commit of different bytes, but the later committer (serve pid {}) listed the hub at step {} — before the earlier commit at step {} — so its `expected` was stale and the earlier commit was silently overwritten", second.0, second.1, first.2));
+                            return rep;
+                        }
+                        rep.probe("sequential_commits_same_path", 1);
+                    }
+                }
                 rep.nontrivial |= results.iter().any(|(_, r)| r.conflicts > 0);
             }
             w = out.world;
